@@ -203,6 +203,78 @@ func main() {
 				})
 				e.Strs("readDocConds", conds, "conditions tested in ReadDoc, source order")
 			}
+			if fd := hf.Func("", "writeBulkResponse"); fd == nil {
+				e.Missing("responseWrites", "writeBulkResponse not found")
+			} else {
+				// every write to the response in source order; loops and conditions around them are rendered too
+				var evs []string
+				var walk func(list []ast.Stmt)
+				lit := func(x ast.Expr) string {
+					switch v := x.(type) {
+					case *ast.BasicLit:
+						return v.Value
+					case *ast.Ident:
+						return v.Name
+					}
+					return hf.Render(x)
+				}
+				walk = func(list []ast.Stmt) {
+					for _, st := range list {
+						switch x := st.(type) {
+						case *ast.ForStmt:
+							evs = append(evs, "for "+hf.Render(x.Init)+"; "+hf.Render(x.Cond)+"; "+hf.Render(x.Post))
+							walk(x.Body.List)
+						case *ast.RangeStmt:
+							evs = append(evs, "range "+hf.Render(x.X))
+							walk(x.Body.List)
+						case *ast.IfStmt:
+							for _, s := range x.Body.List {
+								if as, ok := s.(*ast.AssignStmt); ok && len(as.Rhs) == 1 {
+									if c, ok := as.Rhs[0].(*ast.CallExpr); ok && strings.HasSuffix(hf.Render(c.Fun), ".WriteString") {
+										evs = append(evs, "if "+hf.Render(x.Cond)+" "+lit(c.Args[0]))
+										continue
+									}
+								}
+								evs = append(evs, "if "+hf.Render(x.Cond)+" { "+hf.Render(s)+" }")
+							}
+							if x.Else != nil {
+								evs = append(evs, "else "+hf.Render(x.Else))
+							}
+						case *ast.AssignStmt:
+							if len(x.Rhs) == 1 {
+								if c, ok := x.Rhs[0].(*ast.CallExpr); ok {
+									fn := hf.Render(c.Fun)
+									switch {
+									case strings.HasSuffix(fn, ".WriteString") || strings.HasSuffix(fn, ".Write"):
+										evs = append(evs, lit(c.Args[0]))
+									case fn == "strconv.AppendInt":
+									case fn == "bytespool.AcquireWriterSize":
+									default:
+										if strings.Contains(hf.Render(x), "response") {
+											evs = append(evs, hf.Render(x))
+										}
+									}
+								}
+							}
+						case *ast.ExprStmt:
+							if strings.Contains(hf.Render(x), "response") {
+								evs = append(evs, hf.Render(x))
+							}
+						}
+					}
+				}
+				walk(fd.Body.List)
+				e.Strs("responseWrites", evs, "writeBulkResponse: writes to the response in source order with the loops/conditions around them")
+				ast.Inspect(fd.Body, func(n ast.Node) bool {
+					if vs, ok := n.(*ast.ValueSpec); ok && len(vs.Names) == 1 && vs.Names[0].Name == "itemCreated" && len(vs.Values) == 1 {
+						if bl, ok := vs.Values[0].(*ast.BasicLit); ok {
+							s, _ := strconv.Unquote(bl.Value)
+							e.Str("responseItem", s, "const itemCreated")
+						}
+					}
+					return true
+				})
+			}
 			if fd := hf.Func("", "acquireESBulkDocReader"); fd == nil {
 				e.Missing("readerCtor", "acquireESBulkDocReader not found")
 			} else {
